@@ -299,18 +299,24 @@ _add(PropertySpec(
 _add(PropertySpec(
     'C06', 'other',
     functions=['ampycloud.data.CeiloChunk._get_min_sep_for_height', 'ampycloud.utils.utils.calc_base_height',
-               'ampycloud.data.CeiloChunk._calculate_base_height_for_selection'],
+               'ampycloud.data.CeiloChunk._calculate_base_height_for_selection', 'ampycloud.data.CeiloChunk._merge_close_groups'],
     lemmas=['prop.C02.nosig'],
     bounded=_bounded('c06'),
     explanation=('PROVED (P): _get_min_sep_for_height returns the MIN_SEP_VALS entry of the height bin (left insertion point in the ascending '
                  'limits; lengths mismatch => AmpycloudError; index always in range); calc_base_height is the percentile of the look-back '
                  'tail of what it is given, and _calculate_base_height_for_selection -- the one routine used both when deciding a merge '
                  'and when reporting -- passes the configured parameters and the time-ordered selection of the mask it is given (so '
-                 'decision-time and report-time bases agree whenever both hand in the same mask).  NOT UNDER CONTRACT: the merge loop of _merge_close_groups and the re-merge pass of ncomp_from_gmm '
-                 '(pandas diff / apply / drop, scikit-learn): the separation of the bases finally reported is checked natively on scenes '
+                 'decision-time and report-time bases agree whenever both hand in the same mask).  PROVED (P): _merge_close_groups (real AST, the while loop cut by an invariant, variant = number of rows): '
+                 'the "too close" flags are always those of the *current* table (row k flagged iff base[k] - base[k-1] is below the minimum '
+                 'separation looked up at base[k]); every iteration reassigns the hits of the first flagged group to the group below it '
+                 '(one write, to group_id only), drops that row, and recomputes every base through the routine that also produces the '
+                 'reported bases, for exactly the remaining group ids; the loop terminates (a row is dropped per iteration) and on exit '
+                 'any two adjacent groups are at least the minimum separation of the upper one apart; row indices stay in range.  '
+                 'NOT UNDER CONTRACT: the re-merge pass of ncomp_from_gmm (scikit-learn) and the carry-over from the merge table to the '
+                 'reported table (same routine on the same hit assignment: A-DET): the separation of the bases finally reported is checked natively on scenes '
                  'built to straddle the separation bins, with rows ascending / descending / shuffled, look-back and exclusion (B).'),
     assumptions=[A_REAL, 'MIN_SEP_LIMS ascending (documented meaning)'],
-    not_decided=['_merge_close_groups loop invariant and ncomp_from_gmm re-merge pass (bounded only)'],
+    not_decided=['ncomp_from_gmm re-merge pass (bounded only)', 'equality of the merge table with the reported table (A-DET; bounded)'],
 ))
 
 _add(PropertySpec(
